@@ -27,6 +27,12 @@ theorem inv_recreate {s : St} (h : Inv s) (t : Tid) : Inv (step Cfg.expected s (
   · obtain ⟨k, hk, hl, hlt⟩ := h.keyK hp
     apply inv_newgen h <;> first | rfl | (simp [step, recreateOps, hp, Cfg.expected, kstep, hk, hl, h.nbad] <;> omega)
 
+theorem inv_moveFresh {s : St} (h : Inv s) (t : Tid) : Inv (step Cfg.expected s (.moveFresh t)) := by
+  have e : step Cfg.expected s (.moveFresh t) = step Cfg.expected s (.recreate t) := by
+    simp [step, moveFreshStep, Cfg.expected]
+  rw [e]
+  exact inv_recreate h t
+
 theorem inv_local {s : St} (h : Inv s) (t : Tid) : Inv (step Cfg.expected s (.loc t)) := by
   cases hp : s.perInst
   · -- ets_no_key / combinable: the table only
@@ -72,6 +78,7 @@ theorem inv_step {s : St} (h : Inv s) (o : Op) : Inv (step Cfg.expected s o) := 
   | loc t => exact inv_local h t
   | clear t => exact inv_clear h t
   | recreate t => exact inv_recreate h t
+  | moveFresh t => exact inv_moveFresh h t
 
 theorem inv_foldl (ops : List Op) : ∀ s, Inv s → Inv (ops.foldl (step Cfg.expected) s) := by
   induction ops with
